@@ -354,6 +354,356 @@ theorem encLen_root (nm : String) (items : Items) (v : Value) :
     encLen (.root nm items) v = lenBody (.root nm items) v := by
   simp [encLen, lenBody]
 
+
+/-! ### encode never panics -/
+
+theorem sizeFind_no_panic (v : Value) : ∀ (is : Items) (t : String) (vs : List Value),
+    (firstArray is t).isSome = true → v.get? t = some (.arr vs) → ∃ s, sizeOfTarget.find t v is = .ok s
+  | .nil, t, vs, h, _ => by simp [firstArray] at h
+  | .cons i r, t, vs, h, hg => by
+    cases i with
+    | array id el ew shape pad =>
+      simp only [firstArray] at h
+      simp only [sizeOfTarget.find]
+      by_cases hid : (id == t) = true
+      · have hid' : id = t := by simpa using hid
+        subst hid'
+        simp only [BEq.rfl, ↓reduceIte, listField, hg, Outcome.bind]
+        cases el <;> exact ⟨_, rfl⟩
+      · have hid' : (id == t) = false := by simpa using hid
+        simp only [hid', Bool.false_eq_true, ↓reduceIte] at h ⊢
+        exact sizeFind_no_panic v r t vs h hg
+    | chunk fs => simp only [firstArray] at h; simp only [sizeOfTarget.find]; exact sizeFind_no_panic v r t vs h hg
+    | typedef id ty sb => simp only [firstArray] at h; simp only [sizeOfTarget.find]; exact sizeFind_no_panic v r t vs h hg
+    | optional id ty ci cv => simp only [firstArray] at h; simp only [sizeOfTarget.find]; exact sizeFind_no_panic v r t vs h hg
+    | payload md => simp only [firstArray] at h; simp only [sizeOfTarget.find]; exact sizeFind_no_panic v r t vs h hg
+
+theorem elemTy_of_firstArray : ∀ (is : Items) (t : String), (firstArray is t).isSome = true →
+    (encChunkFields.elemTy t is).isSome = true
+  | .nil, t, h => by simp [firstArray] at h
+  | .cons i r, t, h => by
+    cases i with
+    | array id el ew shape pad =>
+      simp only [firstArray] at h
+      simp only [encChunkFields.elemTy]
+      by_cases hid : (id == t) = true
+      · simp [hid]
+      · have hid' : (id == t) = false := by simpa using hid
+        simp only [hid', Bool.false_eq_true, ↓reduceIte] at h ⊢
+        exact elemTy_of_firstArray r t h
+    | chunk fs => simp only [firstArray] at h; simp only [encChunkFields.elemTy]; exact elemTy_of_firstArray r t h
+    | typedef id ty sb => simp only [firstArray] at h; simp only [encChunkFields.elemTy]; exact elemTy_of_firstArray r t h
+    | optional id ty ci cv => simp only [firstArray] at h; simp only [encChunkFields.elemTy]; exact elemTy_of_firstArray r t h
+    | payload md => simp only [firstArray] at h; simp only [encChunkFields.elemTy]; exact elemTy_of_firstArray r t h
+
+/-- the checks and the packing of one bit-field group never panic on a value of the generated type -/
+theorem encChunkFields_no_panic (ideal : Bool) (all : Items) (pl : Nat) (v : Value) :
+    ∀ (fs : List BitField) (shift acc : Nat), fs.all (typedBf all v) = true →
+      (encChunkFields ideal all pl v fs shift acc).isPanic = false
+  | [], _, _, _ => by simp [encChunkFields, Outcome.isPanic]
+  | f :: fs, shift, acc, h => by
+    simp only [List.all_cons, Bool.and_eq_true] at h
+    obtain ⟨hf, hr⟩ := h
+    have ih := fun s a => encChunkFields_no_panic ideal all pl v fs s a hr
+    unfold encChunkFields
+    cases f with
+    | scalar id w =>
+      simp only [typedBf] at hf
+      split at hf
+      · rename_i x hx
+        simp only [decide_eq_true_eq] at hf
+        simp only [natField, hx, Outcome.bind]
+        rw [if_neg (by omega)]
+        split
+        · rfl
+        · exact ih _ _
+      · cases hf
+    | flag id opts =>
+      simp only [typedBf, Bool.not_eq_true', List.isEmpty_eq_false_iff] at hf
+      cases opts with
+      | nil => exact absurd rfl hf
+      | cons o rest =>
+        obtain ⟨oid, setv⟩ := o
+        simp only
+        split
+        · rfl
+        · exact ih _ _
+    | enumTy id ty e =>
+      simp only [typedBf] at hf
+      split at hf
+      · rename_i x hx
+        simp only [natField, hx, Outcome.bind, hf, ↓reduceIte]
+        exact ih _ _
+      · cases hf
+    | fixed w c => exact ih _ _
+    | reserved w => exact ih _ _
+    | size t w m =>
+      simp only [typedBf, Bool.or_eq_true, beq_iff_eq] at hf
+      have hs : ∃ s, sizeOfTarget all t pl v = .ok s := by
+        simp only [sizeOfTarget]
+        rcases hf with (ht | ht) | hfa
+        · subst ht; exact ⟨pl, by simp⟩
+        · subst ht; exact ⟨pl, by simp⟩
+        · by_cases hpb : (t == "_payload_" || t == "_body_") = true
+          · exact ⟨pl, by simp [hpb]⟩
+          · simp only [hpb, Bool.false_eq_true, ↓reduceIte]
+            split at hfa
+            · rename_i x vs hfa1 hget
+              exact sizeFind_no_panic v all t vs (by simp [hfa1]) hget
+            · cases hfa
+      obtain ⟨s0, hs0⟩ := hs
+      simp only [hs0, Outcome.bind]
+      repeat' split
+      all_goals first | rfl | exact ih _ _
+    | count t w =>
+      simp only [typedBf] at hf
+      split at hf
+      · rename_i vs hget
+        simp only [listField, hget, Outcome.bind]
+        split
+        · rfl
+        · exact ih _ _
+      · cases hf
+    | elemSize t w =>
+      simp only [typedBf] at hf
+      split at hf
+      · rename_i x vs hfa1 hget
+        simp only [listField, hget, Outcome.bind]
+        have := elemTy_of_firstArray all t (by simp [hfa1])
+        cases hel : encChunkFields.elemTy t all with
+        | none => simp [hel] at this
+        | some ty =>
+          simp only
+          repeat' split
+          all_goals first | rfl | exact ih _ _
+      · cases hf
+
+theorem encListWith_no_panic (f : Value → Enc Bytes) : ∀ (vs : List Value), (∀ x ∈ vs, (f x).isPanic = false) →
+    (encListWith f vs).isPanic = false
+  | [], _ => rfl
+  | x :: vs, h => by
+    simp only [encListWith]
+    have h1 := h x (List.mem_cons_self ..)
+    have h2 := encListWith_no_panic f vs (fun y hy => h y (List.mem_cons_of_mem _ hy))
+    cases hx : f x with
+    | panic q => simp [hx, Outcome.isPanic] at h1
+    | err e => rfl
+    | ok a =>
+      simp only [Outcome.bind]
+      cases hr : encListWith f vs with
+      | panic q => simp [hr, Outcome.isPanic] at h2
+      | err e => rfl
+      | ok b => rfl
+
+
+theorem encList_len_arrSize (c : Cfg) (elem : Ty) (ew : ElemWidth)
+    (hw : (match ew with | .static w => staticTy elem == some w | _ => true) = true ∧ lenWfTy elem = true)
+    (vs : List Value) (es : Bytes) (hel : encListWith (encTy c elem) vs = .ok es) :
+    es.length = arrSize ew (lenTy elem) vs := by
+  cases ew with
+  | static w =>
+    have hst : staticTy elem = some w := by simpa using hw.1
+    have := encListWith_length (encTy c elem) (fun _ => w) (fun x b hx => encTy_static c elem x b w hst hx) vs es hel
+    simp only [arrSize, this, sumLen_const]
+  | dynamic => exact encListWith_length (encTy c elem) (lenTy elem) (fun x b hx => encTy_len c elem x b hw.2 hx) vs es hel
+  | unknown => exact encListWith_length (encTy c elem) (lenTy elem) (fun x b hx => encTy_len c elem x b hw.2 hx) vs es hel
+
+theorem isPanic_bind_false {α β : Type} (x : Enc α) (f : α → Enc β) (hx : x.isPanic = false)
+    (hf : ∀ a, x = .ok a → (f a).isPanic = false) : (x.bind f).isPanic = false := by
+  cases x with
+  | ok a => exact hf a rfl
+  | err e => rfl
+  | panic q => simp [Outcome.isPanic] at hx
+
+mutual
+theorem encTy_no_panic (c : Cfg) : ∀ (t : Ty) (v : Value), LenWFTy t → typedTy t v = true →
+    (encTy c t v).isPanic = false
+  | .scalar w, v, _, ht => by
+    simp only [typedTy] at ht
+    split at ht
+    · rename_i x
+      simp only [decide_eq_true_eq] at ht
+      simp only [encTy]
+      rw [if_neg (by omega)]
+      split <;> rfl
+    · cases ht
+  | .enumTy nm en, v, _, ht => by
+    simp only [typedTy] at ht
+    split at ht
+    · simp [encTy, ht, Outcome.isPanic]
+    · cases ht
+  | .custom nm w, v, _, ht => by
+    simp only [typedTy] at ht
+    split at ht
+    · simp only [decide_eq_true_eq] at ht
+      simp [encTy, ht, Outcome.isPanic]
+    · cases ht
+  | .struct nm b, v, hw, ht => by
+    simp only [typedTy] at ht
+    simp only [encTy]
+    cases b with
+    | root nm' items => exact encBody_no_panic c (.root nm' items) v (by simpa [LenWFTy, LenWFBody, lenWfTy, lenWfBody] using hw) ht
+    | derived _ _ _ _ _ => simp [LenWFTy, lenWfTy] at hw
+
+theorem encItem_no_panic (c : Cfg) (all : Items) (inner : Enc Bytes) (hin : inner.isPanic = false) (pl : Nat) (v : Value) :
+    ∀ (i : Item), LenWFItem i → typedItem all v i = true → (encItem c all inner pl v i).isPanic = false
+  | .chunk fs, _, ht => by
+    simp only [typedItem] at ht
+    simp only [encItem]
+    exact isPanic_bind_false _ _ (encChunkFields_no_panic _ all pl v fs 0 0 ht) (fun _ _ => rfl)
+  | .typedef id ty sb, hw, ht => by
+    simp only [LenWFItem, lenWfItem, Bool.and_eq_true] at hw
+    simp only [typedItem] at ht
+    simp only [encItem]
+    split at ht
+    · rename_i x hx
+      simp only [hx]
+      exact encTy_no_panic c ty x hw.2 ht
+    · cases ht
+  | .optional id ty cid cval, hw, ht => by
+    simp only [LenWFItem, lenWfItem] at hw
+    simp only [typedItem] at ht
+    simp only [encItem]
+    cases hg : v.get? id with
+    | none => rfl
+    | some y =>
+      simp only [hg] at ht
+      cases y with
+      | null => rfl
+      | int n =>
+        cases ty with
+        | scalar w =>
+          simp only [typedTy, decide_eq_true_eq] at ht
+          simp only
+          rw [if_neg (by omega)]
+          split <;> rfl
+        | enumTy nm en => exact encTy_no_panic c _ _ hw ht
+        | custom nm w => exact encTy_no_panic c _ _ hw ht
+        | struct nm b => exact encTy_no_panic c _ _ hw ht
+      | arr l =>
+        cases ty with
+        | scalar w => simp [typedTy] at ht
+        | enumTy nm en => exact encTy_no_panic c _ _ hw ht
+        | custom nm w => exact encTy_no_panic c _ _ hw ht
+        | struct nm b => exact encTy_no_panic c _ _ hw ht
+      | obj l =>
+        cases ty with
+        | scalar w => simp [typedTy] at ht
+        | enumTy nm en => exact encTy_no_panic c _ _ hw ht
+        | custom nm w => exact encTy_no_panic c _ _ hw ht
+        | struct nm b => exact encTy_no_panic c _ _ hw ht
+  | .payload md, _, _ => by simpa [encItem] using hin
+  | .array id elem ew shape pad, hw, ht => by
+    simp only [LenWFItem, lenWfItem, Bool.and_eq_true] at hw
+    simp only [typedItem] at ht
+    simp only [encItem]
+    split at ht
+    · rename_i vs hget
+      simp only [Bool.and_eq_true, List.all_eq_true] at ht
+      simp only [listField, hget, Outcome.bind]
+      have hcc : checkCount shape vs.length = .ok () := by
+        cases shape with
+        | static n => simp only [beq_iff_eq] at ht; simp [checkCount, ht.2]
+        | _ => rfl
+      simp only [hcc]
+      cases hp : checkPad pad (arrSize ew (lenTy elem) vs) with
+      | err e => rfl
+      | panic q =>
+        simp only [checkPad] at hp
+        split at hp
+        · cases hp
+        · split at hp <;> cases hp
+      | ok u =>
+        simp only
+        have hnl := encListWith_no_panic (encTy c elem) vs (fun x hx => encTy_no_panic c elem x hw.2 (ht.1 x hx))
+        cases hel : encListWith (encTy c elem) vs with
+        | panic q => simp [hel, Outcome.isPanic] at hnl
+        | err e => rfl
+        | ok es =>
+          simp only
+          have hlen := encList_len_arrSize c elem ew hw vs es hel
+          cases pad with
+          | none => rfl
+          | some q =>
+            simp only [checkPad] at hp
+            split at hp
+            · cases hp
+            · rename_i hle
+              simp only [padTo]
+              rw [if_pos (by omega)]
+              rfl
+    · cases ht
+
+theorem encItems_no_panic (c : Cfg) (all : Items) (inner : Enc Bytes) (hin : inner.isPanic = false) (pl : Nat) (v : Value) :
+    ∀ (is : Items), LenWFItems is → typedItems all v is = true → (encItems c all inner pl v is).isPanic = false
+  | .nil, _, _ => rfl
+  | .cons i r, hw, ht => by
+    simp only [LenWFItems, lenWfItems, Bool.and_eq_true] at hw
+    simp only [typedItems, Bool.and_eq_true] at ht
+    simp only [encItems]
+    refine isPanic_bind_false _ _ (encItem_no_panic c all inner hin pl v i hw.1 ht.1) (fun a _ => ?_)
+    exact isPanic_bind_false _ _ (encItems_no_panic c all inner hin pl v r hw.2 ht.2) (fun _ _ => rfl)
+
+/-- **`encode` never panics** — for every layout whose static annotations agree with its types (`LenWFBody`),
+    both byte orders, the model of the emitted encoder and the reference mode alike, and every value of the
+    generated type (`typedBody`: what the Rust type system and serde admit): the outcome is bytes or an
+    `EncodeError`; in particular the padding subtraction `padding_octets - array_size` never underflows
+    (it is dominated by the `SizeOverflow` check).  Root packets, structs, inheriting packets at any depth. -/
+theorem encBody_no_panic (c : Cfg) : ∀ (b : Body) (v : Value), LenWFBody b → typedBody b v = true →
+    (encBody c b v).isPanic = false
+  | .root nm items, v, hw, ht => by
+    simp only [LenWFBody, lenWfBody] at hw
+    simp only [typedBody, Bool.and_eq_true, Bool.or_eq_true, Bool.not_eq_true'] at ht
+    simp only [encBody]
+    split
+    · rename_i hp
+      rcases ht.2 with h | h
+      · simp [h] at hp
+      · cases hh : items.hasPayload with
+        | false => simp [hh] at hp
+        | true =>
+          simp only [hh, ↓reduceIte] at hp
+          rw [hp] at h; cases h
+    · rename_i p hp
+      exact encItems_no_panic c items (.ok p) rfl p.length v items hw ht.1
+  | .derived nm parent cs allCs items, v, hw, ht => by
+    simp only [LenWFBody, lenWfBody, Bool.and_eq_true] at hw
+    simp only [typedBody, Bool.and_eq_true, Bool.or_eq_true, Bool.not_eq_true'] at ht
+    simp only [encBody]
+    split
+    · rename_i hp
+      rcases ht.1.2 with h | h
+      · simp [h] at hp
+      · cases hh : items.hasPayload with
+        | false => simp [hh] at hp
+        | true =>
+          simp only [hh, ↓reduceIte] at hp
+          rw [hp] at h; cases h
+    · rename_i p hp
+      exact encAround_no_panic c parent _ _ _ hw.1.2 ht.2
+        (encItems_no_panic c items (.ok p) rfl p.length _ items hw.1.1 ht.1.1)
+
+theorem encAround_no_panic (c : Cfg) : ∀ (b : Body) (v : Value) (inner : Enc Bytes) (len : Nat), LenWFBody b →
+    typedAround b v = true → inner.isPanic = false → (encAround c b v inner len).isPanic = false
+  | .root nm items, v, inner, len, hw, ht, hin => by
+    simp only [LenWFBody, lenWfBody] at hw
+    simp only [typedAround] at ht
+    simp only [encAround]
+    exact encItems_no_panic c items inner hin len v items hw ht
+  | .derived nm parent cs allCs items, v, inner, len, hw, ht, hin => by
+    simp only [LenWFBody, lenWfBody, Bool.and_eq_true] at hw
+    simp only [typedAround, Bool.and_eq_true] at ht
+    simp only [encAround]
+    exact encAround_no_panic c parent v _ _ hw.1.2 ht.2 (encItems_no_panic c items inner hin len v items hw.1.1 ht.1)
+end
+
+/-! non-vacuity: the value `{ a: 9, b: 9000, x: [1, 2], payload: [7] }` is a value of the type generated for
+    `packet P { a: 3, b: 13, x: 16[], _payload_ }` (and is out of range: `encode` returns an error, no panic) -/
+example : typedBody (.root "P" (.cons (.chunk [.scalar "a" 3, .scalar "b" 13])
+    (.cons (.array "x" (.scalar 16) (.static 2) .unknown none) (.cons (.payload .last) .nil))))
+    (.obj [("a", .int 9), ("b", .int 9000), ("x", .arr [.int 1, .int 2]), ("payload", .arr [.int 7])]) = true := by
+  decide
+
 /-! non-vacuity: `packet P { a: 3, b: 13, x: 16[], _payload_ }` meets `LenWFBody` -/
 example : LenWFBody (.root "P" (.cons (.chunk [.scalar "a" 3, .scalar "b" 13])
     (.cons (.array "x" (.scalar 16) (.static 2) .unknown none) (.cons (.payload .last) .nil)))) := by
